@@ -18,6 +18,9 @@ pub struct RecInner {
 pub struct Rec(pub Arc<Mutex<RecInner>>);
 
 static OP_STARTED: AtomicU64 = AtomicU64::new(0);
+/// last time anything was recorded: a driver that stops recording for a long time is stuck in a
+/// call into the code under test that was not individually bracketed
+static LAST_ACTIVITY: AtomicU64 = AtomicU64::new(0);
 
 fn now_ms() -> u64 {
     SystemTime::now()
@@ -38,13 +41,18 @@ impl Rec {
         std::thread::spawn(move || loop {
             std::thread::sleep(Duration::from_millis(250));
             let st = OP_STARTED.load(Ordering::SeqCst);
-            if st != 0 && now_ms() - st > hang_secs * 1000 {
+            let la = LAST_ACTIVITY.load(Ordering::SeqCst);
+            let stuck = la != 0 && now_ms() - la > (hang_secs * 4 + 30) * 1000;
+            if (st != 0 && now_ms() - st > hang_secs * 1000) || stuck {
                 let mut g = w.0.lock().unwrap();
                 if let Some(mut p) = g.pending.take() {
                     p["ret"] = json!({"t":"hang"});
                     p["open"] = json!({"t":"hang"});
                     let s = serde_json::to_string(&p).unwrap();
                     g.lines.push(s);
+                } else {
+                    // no event of any trace specification: the run is rejected at this line
+                    g.lines.push(r#"{"e":"hang","what":"a call into the code under test did not return"}"#.to_string());
                 }
                 g.count("hangs", 1);
                 g.flush();
@@ -64,6 +72,7 @@ impl Rec {
         })))
     }
     pub fn emit(&self, mut v: Value) {
+        LAST_ACTIVITY.store(now_ms(), Ordering::SeqCst);
         strip_nulls(&mut v);
         let mut g = self.0.lock().unwrap();
         let s = serde_json::to_string(&v).unwrap();
@@ -71,6 +80,7 @@ impl Rec {
     }
     /// mark the start of a call into the code under test
     pub fn begin(&self, pending: Value) {
+        LAST_ACTIVITY.store(now_ms(), Ordering::SeqCst);
         self.0.lock().unwrap().pending = Some(pending);
         OP_STARTED.store(now_ms(), Ordering::SeqCst);
     }
@@ -79,6 +89,7 @@ impl Rec {
         self.0.lock().unwrap().pending = None;
     }
     pub fn count(&self, k: &str, n: u64) {
+        LAST_ACTIVITY.store(now_ms(), Ordering::SeqCst);
         self.0.lock().unwrap().count(k, n);
     }
     pub fn finish(&self) {
